@@ -121,6 +121,8 @@ def scenario(rng, findings=False):
     scn["steps"] = steps
     if has_coro:
         scn["driver"] = rng.choice(["sync", "inloop"])
+    # "any object": listeners that are value-like (all compare and hash equal) or unhashable (a plain @dataclass)
+    scn["listener_kind"] = rng.choice(["attr", "attr", "equal", "unhashable"])
     return scn
 
 
@@ -164,7 +166,7 @@ def featurize(scn, res, v):
         cb = d["cbs"][nxt["c"] - 1]
         dup_guard = cb["group"] == "cond" and any(
             ln["e"] == "B" and ln["c"] == nxt["c"] for ln in lines[max(0, k - 12):k])
-    return {"listener_reattached": readded, "duplicate_guard_begin": dup_guard, "late_async_listener": late_async,
+    return {"listener_kind": scn.get("listener_kind", "attr"), "listener_reattached": readded, "duplicate_guard_begin": dup_guard, "late_async_listener": late_async,
             "multi_provider_coroutine_guard": multi_coro, "multi_provider_unless": multi_unless}
 
 
@@ -190,5 +192,5 @@ def run(pid, tier, seed, replay):
                     "providers: shapes of the known findings", shards=2 if quick else 6, featurize=featurize)
     chk.coverage["rule"] = ("callback names distributed over machine/model/2 constructor listeners/2 late listeners, 35% of names cloned "
                             "onto further providers (guards with their own valuation), repeated add_listener, 1-2 instances of one class "
-                            "with different listeners, sync and async listener methods")
+                            "with different listeners, sync and async listener methods; listener objects plain, value-like (all equal) or unhashable")
     return chk.finish()
